@@ -57,7 +57,7 @@ impl ser::Error for E {
 pub const MAXENT: usize = 5;
 pub const MAXDATA: usize = 9;
 
-#[derive(Clone, Copy, PartialEq, Debug)]
+#[derive(Clone, Copy, PartialEq, Eq, PartialOrd, Ord, Debug)]
 pub enum Key {
     NumCols,
     NumRows,
